@@ -158,3 +158,26 @@ Definition c08_prop (k : kase) : bool :=
    | None => true end).
 Definition c08_code (k : kase) : N :=
   if ref_valid k then code_of (model_ok k) (c08_prop k) else code_of (model_ok k) true + 4.
+
+(** ** C08, channel "inner": the crate-private `_with_limit` decoders (through the verification hook),
+    one filter at a time.  Model equality for all four; the limit property for the three whose in-loop
+    checks are the bound (LZW's is not: see ProofsLzw.lzw_inner_check_not_a_bound; its bound is the
+    post-filter check of the public entry, covered by channel "bounded"). *)
+Definition inner_case := (filt * option Z * bytes * list (N * ores))%type.
+Definition inner_model (f : filt) (e : option Z) (d : bytes) (L : N) : option bytes :=
+  match f with
+  | FHex => decode_hex_lim d L
+  | F85 => decode_a85_lim d L
+  | FRl => decode_rl_lim d L
+  | FLzw => decode_lzw_lim d (early_of e) L
+  | _ => None
+  end.
+Definition inner_code (c : inner_case) : N :=
+  let '(f, e, d, lims) := c in
+  let big := inner_model f e d 9223372036854775808 in       (* ORef = same bytes as at the largest limit *)
+  let rs := map (fun lo => (fst lo, ores_val big (snd lo))) lims in
+  code_of (forallb (fun lo => obytes_eqb (inner_model f e d (fst lo)) (snd lo)) rs)
+          (forallb (fun lo => match f, snd lo with
+                              | FLzw, _ => true
+                              | _, Some r => blen r <=? fst lo
+                              | _, None => true end) rs).
